@@ -476,6 +476,12 @@ def _solver_deprecation(kwargs, options, solver="me"):
     """
     if options is None:
         options = {}
+    elif isinstance(options, dict):
+        # The deprecated keywords are merged into a copy, not into the
+        # dictionary of the caller.
+        options = dict(options)
+    else:
+        raise TypeError("options most to be a dictionary.")
     # TODO remove by 5.1
     if "progress_bar" in kwargs:
         warnings.warn(
